@@ -802,6 +802,14 @@ static Family cookie_family(const std::string &tier)
     f.cfgs.push_back(c);
   }
   {
+    // socket functions without agetsockname (the callback is optional): the local address is unknown, which is one
+    // constant source as far as cookies are concerned
+    Cfg c            = cfg("1srv-edns-socket-functions-without-getsockname", 1, 3, ARES_FLAG_EDNS);
+    c.auto_io        = true;
+    c.no_getsockname = true;
+    f.cfgs.push_back(c);
+  }
+  {
     // truncation ignored (IGNTC): the switch to TCP after three BADCOOKIE re-sends has nothing to do with truncation and
     // must still happen
     Cfg c      = cfg("1srv-edns-igntc-from-two-badcookie-resends", 1, 3, ARES_FLAG_EDNS | ARES_FLAG_IGNTC);
